@@ -75,6 +75,8 @@ def cases(tier: str, seed: int) -> list[dict]:
         for law in LAWS:
             for dim in (2, 3):
                 out.append({"fam": "law", "law": law, "dim": dim})
+        # plane-strain model of a fibre-reinforced solid whose fibre / sheet directions leave the plane
+        out.append({"fam": "law", "law": "HolzapfelOgden", "dim": 2, "oop": True})
         k = 0
         for op in OPS:
             for dim, et in ELEMS:
@@ -105,7 +107,7 @@ def cases(tier: str, seed: int) -> list[dict]:
                     continue
                 out.append({"fam": "assembly", "algo": algo, "stress": stress, "law": LAWS[k % 4], "dim": dim, "et": et, "visco": k % 3 == 0 and algo != "elliptic", "active": k % 4 == 1})
     for i, c in enumerate(out):
-        tag = {"assembly": lambda: f"{c['algo']}-{c['stress']}-{c['law']}-{c['et']}", "law": lambda: f"{c['law']}-{c['dim']}D", "operator": lambda: f"{c['op']}-{c['law']}-{c['et']}", "dynamics": lambda: f"{c['stress']}-{c['law']}-{c['et']}-{c.get('save_every', 1)}"}[c["fam"]]()
+        tag = {"assembly": lambda: f"{c['algo']}-{c['stress']}-{c['law']}-{c['et']}", "law": lambda: f"{c['law']}-{c['dim']}D{'-oop' if c.get('oop') else ''}", "operator": lambda: f"{c['op']}-{c['law']}-{c['et']}", "dynamics": lambda: f"{c['stress']}-{c['law']}-{c['et']}-{c.get('save_every', 1)}"}[c["fam"]]()
         c["id"] = f"C18-{i:05d}-{c['fam']}-{tag}"
         c["index"] = i
     return out
@@ -121,7 +123,7 @@ def _user_W(C):
     return 0.4 * (jnp.trace(C) - 3.0) - 0.8 * lnJ + 1.5 * lnJ**2
 
 
-def make_law(name, dim, rng, Ne=None, nPg=None):
+def make_law(name, dim, rng, Ne=None, nPg=None, oop=False):
     HE = Models.HyperElastic
     if name == "NeoHookean":
         return HE.NeoHookean(dim, K=float(rng.uniform(0.5, 3)))
@@ -134,7 +136,7 @@ def make_law(name, dim, rng, Ne=None, nPg=None):
     if name == "HolzapfelOgden":
         T1 = rng.normal(size=3)
         T2 = np.cross(T1, rng.normal(size=3))
-        if dim == 2:
+        if dim == 2 and not oop:
             T1[2] = T2[2] = 0.0
             T2 = np.array([-T1[1], T1[0], 0.0])
         c = rng.uniform(0.1, 0.6, size=8)
@@ -206,12 +208,12 @@ def evaluate(law, g, u):
 
 def run_law(case, ctx, rng):
     lawn, dim = case["law"], case["dim"]
-    key0 = f"C18/law/{lawn}/{dim}D"
+    key0 = f"C18/law/{lawn}/{dim}D" + ("/out-of-plane-fibres" if case.get("oop") else "")
     ctx.default_key = key0
     with ctx.monitored("no-exception", key0 + "/build/raised"):
         mesh = unit_mesh(dim, "TRI3" if dim == 2 else "TETRA4", rng)
         g = mesh.groupElem
-        law = make_law(lawn, dim, rng)
+        law = make_law(lawn, dim, rng, oop=bool(case.get("oop")))
     F = random_F(rng, dim)
     I = np.eye(dim)
     E = 0.5 * (F.T @ F - I)
